@@ -261,25 +261,53 @@ def run_shutdown(sc):
         Process._atexitq = saved
 
 
+def ppar_tree(sc):
+    """old encoding {'streams': [durs, ...]} = one Ppar of Pbinds"""
+    return sc['tree'] if 'tree' in sc else ['par', [['bind', i, d] for i, d in enumerate(sc['streams'])]]
+
+
 def run_ppar(sc):
+    """Streams of ONE pattern object: the tree is built once (['ref', k] = the SAME python object again, also twice
+    inside one Ppar), nstreams streams are made from the root object and read in the interleaving 'order'."""
     from sc3.seq import event as evt
     from sc3.seq.patterns.eventpatterns import Pbind, Ppar
     from sc3.seq.patterns.listpatterns import Pseq
     main.reset()
-    pats = [Pbind({'sid': i, 'k': Pseq(list(range(len(d)))), 'dur': Pseq([num(x) for x in d])})
-            for i, d in enumerate(sc['streams'])]
-    s = stm.stream(Ppar(*pats))
-    t, out = Fr(0), []
-    try:
-        for _ in range(2000):
-            ev = s.next(evt.event())
-            if not evt.is_rest(ev):
-                out.append([ev['sid'], ev['k'], str(t)])
-            d = ev('delta') if callable(ev) else ev['delta']
-            t += Fr(float(d))
-    except stm.StopStream:
-        pass
-    return {'events': out}
+    shared = {}
+
+    def build(node):
+        if node[0] == 'bind':
+            return Pbind({'sid': node[1], 'k': Pseq(list(range(len(node[2])))), 'dur': Pseq([num(x) for x in node[2]])})
+        if node[0] == 'ref':
+            if node[1] not in shared:
+                shared[node[1]] = build(sc['shared'][node[1]])
+            return shared[node[1]]
+        return Ppar(*[build(c) for c in node[1]])
+    root = build(ppar_tree(sc))
+    n = sc.get('nstreams', 1)
+    streams = [stm.stream(root) for _ in range(n)]
+    t, out, done = [Fr(0)] * n, [[] for _ in range(n)], [False] * n
+
+    def read(i):
+        if done[i]:
+            return
+        try:
+            ev = streams[i].next(evt.event())
+        except stm.StopStream:
+            done[i] = True
+            return
+        if not evt.is_rest(ev):
+            out[i].append([ev['sid'], ev['k'], str(t[i])])
+        d = ev('delta') if callable(ev) else ev['delta']
+        t[i] += Fr(float(d))
+    for i in sc.get('order', []):
+        read(i)
+    for _ in range(3000):                    # then everybody to the end, round robin
+        if all(done):
+            break
+        for i in range(n):
+            read(i)
+    return {'events': out if 'tree' in sc or n > 1 else out[0], 'ended': all(done)}
 
 
 def main_():
